@@ -166,6 +166,14 @@ def gen_wide(env, tier, prop):
                 case = cb.Case(dims, ishape, fact, gen.weights(n), rnd.random() < 0.5, rnd.choice([("nan",), ("tuple", 0)]), func)
                 env.run_xcube(prop, case, dtype=rnd.choice([np.int64, np.uint16, np.int32]))
                 env.run_ccube(prop, case)
+    # inferred shape when a dimension array holds the largest value of its own dtype (uint8 255, uint16 65535, int8 127)
+    for dt, top in ((np.uint8, 255), (np.uint16, 65535), (np.int8, 127), (np.uint8, 254)):
+        n = 5
+        d1 = np.array([top, 0, 1, top, 2], dtype=np.int64)
+        d2 = np.array([rnd.randrange(2) for _ in range(n)], dtype=np.int64)
+        for dims in ([d1], [d1, d2], [d2, d1]):
+            case = cb.Case(dims, None, None, None, False, ("nan",), "count")
+            env.run_xcube(prop, case, explicit=False, dtype=dt, note="inferred shape, dtype maximum present")
     # a single wide dimension
     for ext in exts:
         n = 6
@@ -176,7 +184,7 @@ def gen_wide(env, tier, prop):
 
 def gen_c04(env, tier):
     rnd, gen = env.rnd, env.gen
-    n_cases = 700 if tier == "quick" else 12000
+    n_cases = 1000 if tier == "quick" else 14000
     for _ in range(n_cases):
         case = gen.shared_case(maxrows=8)
         # bias towards missing rows (fact and weight) and zero weights
@@ -205,7 +213,7 @@ def gen_c04(env, tier):
 
 def gen_c05(env, tier):
     rnd, gen = env.rnd, env.gen
-    n_cases = 150 if tier == "quick" else 3000
+    n_cases = 220 if tier == "quick" else 3500
     for _ in range(n_cases):
         nd = rnd.choice([1, 2, 2, 3])
         case = gen.shared_case(nd=nd, maxrows=8)
@@ -231,13 +239,17 @@ def gen_c05(env, tier):
                 env.run_ccube("C05", c2, idims=dims2, explicit=False, note="inferred shape, dim %d common %d" % (d, v))
 
 
-def gen_live(env, tier, prop):
+def gen_live(env, tier, prop, with_axes=False):
     """one cube OBJECT used repeatedly while its dimensions are re-expressed in place (shift_common on the very index
     objects the cube holds) or grow (append): results depend on the data only, never on what the cube was built with"""
     rnd, gen = env.rnd, env.gen
     for _ in range(40 if tier == "quick" else 800):
         nd = rnd.choice([1, 2, 2, 3])
-        case = gen.shared_case(rnd.choice(["count", "count", "sum", "mean"]), nd=nd, maxrows=8, pad=False)
+        extra = [rnd.choice([(), (2,), (3,)]) for _ in range(nd)] if with_axes else None
+        if with_axes and not any(extra):
+            extra[0] = (2,)
+        case = gen.shared_case(rnd.choice(["count", "count", "sum", "mean"]), nd=nd, maxrows=6 if with_axes else 8, pad=False,
+                               extra=extra)
         case.ishape = tuple(e + 1 for e in case.ishape)        # room for an absent common value and appended categories
         idims = env.index_dims(case)
         cube = env.ccube(idims, interacting_shape=tuple(case.ishape))
@@ -257,7 +269,7 @@ def gen_live(env, tier, prop):
             v = rnd.randrange(case.ishape[d])
             idims[d].shift_common(v)
             evaluate("same cube object after dims[%d].shift_common(%d) in place" % (d, v))
-        if case.func == "count" and case.weights is None:
+        if case.func == "count" and case.weights is None and not with_axes:
             # the same cube object after every dimension has grown by the same rows
             extra_rows = rnd.choice([1, 2, 3])
             newdims = []
@@ -271,7 +283,7 @@ def gen_live(env, tier, prop):
 
 def gen_c13(env, tier):
     rnd, gen = env.rnd, env.gen
-    n_cases = 500 if tier == "quick" else 8000
+    n_cases = 900 if tier == "quick" else 10000
     shapes = [(2,), (3,), (1,), (4,), (2, 3), (3, 2), (1, 4), (2, 1)]
     for _ in range(n_cases):
         nd = rnd.choice([1, 2, 2, 3])
@@ -329,7 +341,7 @@ def stat_case(env, func, nd=None, extra=None, maxrows=8):
 
 def gen_c18(env, tier):
     rnd = env.rnd
-    n_cases = 4000 if tier == "quick" else 60000
+    n_cases = 7000 if tier == "quick" else 80000
     for _ in range(n_cases):
         func = rnd.choice(cb.STATS)
         case = stat_case(env, func)
@@ -401,6 +413,11 @@ def gen_c02_all(env, tier):
     gen_live(env, tier, "C02")
 
 
+def gen_c13_all(env, tier):
+    gen_c13(env, tier)
+    gen_live(env, tier, "C13", with_axes=True)
+
+
 def gen_c05_all(env, tier):
     gen_c05(env, tier)
     gen_live(env, tier, "C05")
@@ -428,7 +445,7 @@ def gen_c14_all(env, tier):
     gen_c14_long(env, tier)
 
 
-GENS = {"C02": gen_c02_all, "C03": gen_c03_all, "C04": gen_c04, "C05": gen_c05_all, "C13": gen_c13, "C14": gen_c14_all, "C18": gen_c18}
+GENS = {"C02": gen_c02_all, "C03": gen_c03_all, "C04": gen_c04, "C05": gen_c05_all, "C13": gen_c13_all, "C14": gen_c14_all, "C18": gen_c18}
 
 
 def judge(chk, rec, own):
